@@ -4,19 +4,26 @@ CFG = dict(
         "data.Chunk with Limit = F accepts exactly min(F, remaining) bytes from Packet.WriteTo (F a multiple of the 16 KiB copy buffer; property C11) "
         "and com.Packet.Marshal/Unmarshal is the identity on (ID, Job, Flags, Device, payload) (property C01; asserted at run time on every fragment)",
         "the 64-bit flag word is modelled as the record {len, pos, group, low 16 bits}: each setter replaces its own field and sets bit 0 (com/flag.go; bit-level lemmas belong to C01)",
-        "sort.Sort on a cluster is modelled by a stable insertion sort (indistinguishable while positions inside a group are distinct, which the generator guarantees)",
-        "channel semantics of the 128-slot send queue (non-blocking select) and Go map semantics of Session.frags",
+        "sort.Sort on a cluster is modelled by a stable insertion sort (indistinguishable while positions inside a group are distinct, which the split guarantees: C02_split_exact)",
+        "channel semantics of the 128-slot send queue (non-blocking select) and Go map semantics of Session.frags (association list with unique keys)",
+        "the shim harness/overlay/c2--c02.go builds bare Sessions (no network) and calls write / receive / markSweepFrags directly; one wake-up of Session.listen = one markSweepFrags call",
     ],
     assumptions=[
-        "F > 0 and the fragment count Size()/F + 1 is at most 65535 (the uint16 Len field); packets are addressed to the receiving Session (Device = its id) and are not Multi/MultiDevice/Sv* packets",
-        "group ids of concurrently open groups are distinct (the code draws them at random; a collision is outside the property's quantifier)",
-        "the fragment of position 0 arrives first (forced by the SvDrop answer, recorded finding) and every fragment fits into the send queue (recorded finding)",
+        "F >= PacketHeaderSize (46; every build has F >= 262144) and the fragment count Size()/F + 1 is at most 65535 (the uint16 Len field); the tag count is not negative",
+        "the packet is an ordinary one for the receiving Session: Device = its id, ID >= MvRefresh (not a system packet), not a Multi container",
+        "group ids of concurrently open groups are distinct (the code draws them at random; a collision is outside the property's quantifier) and the group is not open when its first fragment arrives",
+        "the fragment of position 0 arrives first (forced by the SvDrop answer: recorded finding, C02_reassemble_any_order_refuted)",
+        "fewer than 5 wake-ups of the client between two successive arrivals of the group (forced by markSweepFrags: recorded finding at the protocol's own cadence, C02_reassemble_unpaced_refuted; a sender that stalls for 5 wake-ups is timed out by design)",
+        "every fragment fits into the send queue (recorded finding, C02_split_fits_queue_refuted)",
     ],
     level_text="Theorems over the Gallina model of Session.write/queue (sender) and receive/cluster.add/cluster.done/markSweepFrags (receiver) for ALL limits F, all payloads "
-               "(polymorphic), all group ids: the split is exact (count, positions, lengths, concatenation, where empty fragments occur); every arrival order with position 0 first, "
-               "interleaved with arbitrary traffic of other groups, delivers exactly the original exactly once and leaves no cluster; fewer than all fragments deliver nothing; "
-               "five wake-ups without traffic remove every cluster. The model is tied to /repo by running generated histories (sizes kF+d, |d|<=60, the band F-H-1..F+1, "
-               "orders, interleavings, omissions, sweeps, both directions with distinct device ids) through the real functions and through the model inside Coq.",
+               "(polymorphic), all group ids, all histories (induction over the list of arrivals and wake-ups): the split is exact (count, positions, lengths, concatenation, "
+               "where empty fragments occur) and write queues exactly the split; every arrival order with position 0 first, interleaved with ARBITRARY other packets and with wake-ups "
+               "(fewer than 5 between two fragments of the group), makes the receiver react nothing,...,nothing,deliver(original) at the group's arrivals and leaves no cluster; fewer arrivals "
+               "than fragments (any strict subset) deliver nothing; after any history five wake-ups empty the table. The three hypotheses the code forces are shown necessary by vm_compute witnesses. "
+               "The model is tied to /repo by running generated histories (sizes kF+d around every change of the fragment count, the band F-H-1..F+1 for every tag count, "
+               "orders, interleavings, omissions, wake-ups at the protocol's cadence and stalls, both directions with distinct device ids) through the real functions and through the model inside Coq.",
     level_note="Proof is about the model; the tie to the code is differential (its strength is that of the generator, distribution in the evidence). Built with -tags tiny "
-               "(F = 262144); the standard 32 MiB limit is not exercised against the implementation. Trusted: Coq kernel+vm_compute, the harness and shim. No axioms.",
+               "(F = 262144); the standard 32 MiB limit is not exercised against the implementation. Concurrent writers (which produce the interleavings) and real timers are not run: "
+               "interleavings and wake-ups are explicit events of the history. Trusted: Coq kernel+vm_compute, the harness and shim. No axioms.",
 )
